@@ -36,7 +36,7 @@ DEFAULT_ENCODE_SET = frozenset(b' "#<>?`')
 Does not include U+0000 to U+001F nor U+001F or above.
 '''
 
-PASSWORD_ENCODE_SET = DEFAULT_ENCODE_SET | frozenset(b'/@\\')
+PASSWORD_ENCODE_SET = DEFAULT_ENCODE_SET | frozenset(b'/@\\%')
 '''Encoding set for passwords.'''
 
 USERNAME_ENCODE_SET = PASSWORD_ENCODE_SET | frozenset(b':')
